@@ -74,8 +74,14 @@ def _read_side(case):
 
 
 def worker_init():
+    import gc
     import logging
     logging.disable(logging.CRITICAL)
+    # The check's workers are forked AFTER the whole case list was generated: every gc.collect() of a history / of the
+    # tracer would traverse the inherited heap (all cases of the run), which made the thorough tier (10^4 cases) ~50x
+    # slower per case than the quick tier.  Move everything inherited into the permanent generation once.
+    gc.collect()
+    gc.freeze()
 
 
 # ------------------------------------------------------------------ stub reactor (Section variable `execute`)
